@@ -50,7 +50,7 @@ impl Prop for EngineProp {
         let mut v: Vec<String> = self.assumptions.iter().map(|s| s.to_string()).collect();
         v.push("the harness is the messaging backend: it honours the channel contracts (ordered: FIFO; unordered: no loss; unreliable: loss/reorder; never duplication or corruption)".into());
         v.push("server and clients register the same rules and events in the same order (except deliberately mismatching clients)".into());
-        v.push("generator exclusions for known findings F4, F14, F15, F17, F20 (counted in coverage.excluded)".into());
+        v.push("generator exclusions for known findings F4, F14, F15, F17, F20, F23 (counted in coverage.excluded)".into());
         v
     }
     fn shard_cases(&self) -> u32 {
